@@ -404,7 +404,13 @@ func (r *realm) onLeave(sess *wamp.Session, shutdown, killAll bool) {
 // HandleSession starts a session attached to this realm.
 //
 // Routing occurs only between WAMP Sessions that have joined the same Realm.
-func (r *realm) handleSession(sess *wamp.Session) error {
+//
+// The WELCOME message is sent by the session's handler goroutine, the same
+// goroutine that closes the session's peer when the session ends. If it were
+// sent by the caller, a client that is slow to read its WELCOME and then
+// disconnects, or is killed, would have its peer closed while the WELCOME is
+// still being sent: a send on a closed channel.
+func (r *realm) handleSession(sess *wamp.Session, welcome *wamp.Welcome) error {
 	// The lock is held in mutual exclusion with the closing of the realm. This
 	// ensures that no new session handler can start once the realm is closing,
 	// during which the realm waits for all existing session handlers to exit.
@@ -426,6 +432,11 @@ func (r *realm) handleSession(sess *wamp.Session) error {
 		r.log.Println("Handling messages for session", sess)
 	}
 	go func() {
+		select {
+		case sess.Send() <- welcome:
+		case <-sess.RecvDone():
+			// Session was ended before the client took the WELCOME.
+		}
 		shutdown, killAll, err := r.handleInboundMessages(sess)
 		if err != nil {
 			abortMsg := wamp.Abort{
